@@ -148,7 +148,7 @@ def run_gen(chk, spec_cases, workers=16):
         json.dump({"cases": spec_cases}, f)
     try:
         r = tlc.run("gen/Gen_LayerValue.tla", tlc.make_cfg(invariants=["Laws", "Emit"]), env={"LAYER_INPUT": path}, workers=workers,
-                    coverage=True, timeout=6000)
+                    coverage=False, timeout=6000)
     finally:
         os.remove(path)
     chk.add_tlc(r, vacuity_actions=("Pick",))
